@@ -118,7 +118,7 @@ def check(case):
         if abs(a.impedance - b.impedance) > tol * abs(a.impedance):
             fails.append(('homogeneity:impedance', '%r vs %r' % (a.impedance, b.impedance)))
             break
-    if m.power > 1e-12 * sum(abs(v * I[s['_idx']]) for v, s in zip(V, srcs)) and m2.power > 0:
+    if common.net_power_ok(m) and common.net_power_ok(m2):
         g1, g2 = pattern(m), pattern(m2)
         msk = g1 > g1.max() - 60
         d = np.abs(g1 - g2)[msk].max()
